@@ -72,6 +72,11 @@ func (w *world) simulateCrowd(choices []int) {
 		shared1, shared2 = pow1.New(cfg.Workers), pow2.New(cfg.Workers)
 		w.probes["concurrent_calls_on_one_worker_object"] = 1
 	}
+	var shared []byte // CrowdPrefix: the caller's one buffer; call i mines shared[:n+8i]
+	if cfg.CrowdPrefix {
+		shared = cfg.callData(cfg.Crowd - 1)
+		w.probes["concurrent_calls_on_prefixes_of_one_buffer"] = 1
+	}
 	calls := make([]*crowdCall, cfg.Crowd)
 	for i := range calls {
 		c := &crowdCall{res: make(chan mineRet, 1)}
@@ -79,6 +84,9 @@ func (w *world) simulateCrowd(choices []int) {
 		calls[i] = c
 		idx := i
 		data := cfg.callData(i)
+		if shared != nil {
+			data = shared[:len(data)] // spare capacity behind it: the longer calls' bytes
+		}
 		go func() {
 			defer func() {
 				if r := recover(); r != nil {
@@ -286,6 +294,18 @@ func (w *world) simulateCrowd(choices []int) {
 		}
 	}
 	k.Quiesce()
+	if shared != nil {
+		// the caller never writes to its buffer; Mine was handed data[:len] to read. A byte that changed lies in the
+		// message of another call that was running at the time: a write racing with that call's reads, whether or not
+		// the detector was looking
+		want := cfg.callData(cfg.Crowd - 1)
+		for p := range want {
+			if shared[p] != want[p] {
+				w.violate("race:mine-wrote-into-the-callers-buffer", fmt.Sprintf("%d concurrent calls on prefixes of one buffer (lengths %d, %d, ...): byte %d of the caller's buffer changed from %#02x to %#02x during the run; it lies behind the data of the call that found a nonce and inside the message of a longer call that was mining at the time", len(calls), len(cfg.callData(0)), len(cfg.callData(1)), p, want[p], shared[p]), nil)
+				break
+			}
+		}
+	}
 	w.returned = true
 	for i, c := range calls {
 		if !c.returned {
